@@ -299,7 +299,8 @@ def run(scn, seed, line_p=0.05, stick=0.5, decisions=None, rpc_timeout=2):
            'co_violations := %s; co_fired := %s; co_conn := %s; co_inv := (%s, %s, %s); '
            'co_btags := %s; co_delivered := %s |}' % (
                events_coq, coq_list([wire_coq(ch, fr) for ch, fr in wire]), final,
-               coq_bool(br.parse_error is None), coq_nat(len(br.violations)),
+               coq_bool(br.parse_error is None),
+               coq_nat(len([v for v in br.violations if scn.get('viol_filter', '') in v])),
                coq_nat(len(fired)), STATES[conn_state],
                coq_nat(socks), coq_nat(inv['live_threads']), coq_nat(inv['armed_timers']),
                coq_list(['(%s, %s)' % (coq_nat(c), coq_list([coq_bytes(t.encode('latin-1')) for t in tags]))
